@@ -9,6 +9,7 @@ package c15
 
 import (
 	"fmt"
+	"math"
 	"os"
 	"runtime"
 	"strconv"
@@ -39,6 +40,7 @@ func TestCheck(t *testing.T) {
 		"(stop) 2-4 goroutines call Stop at the same virtual instant - mostly a tick instant of the periodic cleaner with 100-20000 expired entries waiting, so that the cleaner is inside a long Cleanup pass - after seeded Gosched delays, while other goroutines yield in a storm and race Set/Get/Delete/Cleanup; every returning Stop call takes a goroutine dump at once and is judged on its own (cleaner still inside its loop or inside Cleanup = violation; cleaner in its deferred exit path = not judged), followed by one more Stop after all returned. "+
 		"(resetrace) 6-18 rounds on one cache: the root stores fresh unique values under 1-48 old keys, then behind a spin barrier 1-2 goroutines call Reset (or a manual Cleanup) while 1-3 churners Set fresh keys (map growth), Delete them, overwrite and read old keys, under GOMAXPROCS 2/3/4/8/default; every old key is probed after all returned; judged by the concurrent-mode oracle (a Get starting after a Reset returned must not return a value whose Set returned before that Reset started). "+
 		"TTLs: besides small ones, values from {MaxTTL-1, MaxTTL, MaxTTL+1, 2*MaxTTL, 1<<31, 1<<32, 9223372036, 9223372037, 1<<40, MaxInt64/2, MaxInt64-1, MaxInt64} with MaxTTL 0, small (2,3,5) and large (1<<31, 1<<32, 9223372036, and beyond); directed bigttl scripts probe right after Set, across a manual and a periodic Cleanup, 1ns before / at / after the capped expiry (up to 136 years of virtual time); the reference expiry is Set instant + min(ttl, MaxTTL) s in saturating arithmetic. An effective TTL above 9223372036 s (not representable as a time.Duration; only possible without a cap or with a cap above that) must be clamped, not wrapped: the reference is a hit for as far as the clock can go (right after Set, across manual and periodic Cleanups, +1 s, +68 years); misses there carry the suffix /ttl-beyond-duration. "+
+		"Option shapes: every mode draws, in a fraction of its cases, MaxTTL from {-1, -30, MinInt64, 0, 1, ...} (reference: MaxTTL <= 0 means no cap, as documented 'if greater than 0'), CleanupInterval from {negative, 0 (both select the documented default of 150 s), 1ns, MaxInt64} and InitialSize from {MinInt32, -1, 0, 1, 32768}; directed option scripts cross all of them, step over the default tick at 150 s and run under a 1 ns ticker. "+
 		"Every mode's key set contains the zero-value key (the empty string) (lock-step: a key like any other, plus directed scripts keeping a live empty-string-keyed entry through manual Cleanups with nothing expired and with other entries expired; conc: an untouched or a hot key; stop: the first untouched live key; resetrace: the first old key). The lock-step modes run on Cache[string], Cache[int] and Cache[*int]; the first Set of a history stores V's zero value, which must come back as a hit. "+
 		"Non-trivial: (lock-step) at least one hit and one miss of a key that had been set; (conc) at least one pair of operations overlapping in logical time on one key, or an operation at a tick instant; (stop) at least two Stop calls were issued at one instant; (resetrace) at least one Set of a fresh key overlapped a Reset/Cleanup in logical time. Distinct = distinct operation list / schedule.")
 	rec.Note("require", []string{
@@ -58,6 +60,9 @@ func TestCheck(t *testing.T) {
 		"seq.ttl_beyond_duration.hits_right_after_set", "seq.ttl_beyond_duration.hits_68_years_later", "seq.ttl_beyond_duration.hits_after_manual_cleanup", "seq.ttl_beyond_duration.hits_after_periodic_cleanup",
 		"twoseq.probes_of_the_other_caches_after_cleanup_reset_tick", "twoconc.live_untouched_hits_during_cleanup",
 		"twoconc.cleanups_of_A_with_expired_entries", "twoconc.scans_of_other_caches_with_same_key_names", "twoconc.cases_gomaxprocs_1",
+		"options.maxttl_negative.cases", "options.maxttl_negative.hits", "options.maxttl_negative.hits_after_cleanup", "options.maxttl_negative.conc_hits", "options.maxttl_negative.twocache_hits",
+		"options.cleanup_interval_nonpositive.cases", "options.cleanup_interval_nonpositive.default_tick_at_150s_crossed", "options.cleanup_interval_1ns.cases", "options.cleanup_interval_1ns.ticks",
+		"options.cleanup_interval_maxint64.cases", "options.initial_size_negative.cases", "options.initial_size_large.cases",
 		"resetrace.fresh_key_sets_overlapping_reset", "resetrace.old_key_probes_after_reset", "resetrace.get.miss_reset",
 	})
 	rec.Observe("whether Cleanup physically removed an expired entry (memory reclamation) is not observable through Get and is not judged")
@@ -334,6 +339,37 @@ func finishBubble(idx int, res mon.BubbleResult, mode string, viol func(sig, msg
 			first = first[:60]
 		}
 		viol("panic/"+mode+"/"+strings.ReplaceAll(first, " ", "-"), res.Panic)
+	}
+}
+
+// effInterval is the documented meaning of CacheOptions.CleanupInterval: values
+// <= 0 select the default of 150 s.
+func effInterval(d time.Duration) time.Duration {
+	if d <= 0 {
+		return 150 * sec
+	}
+	return d
+}
+
+// countOptionShapes records which unusual option shapes a case was built with.
+func countOptionShapes(maxTTL int64, interval time.Duration, initSize int32) {
+	if maxTTL < 0 {
+		rec.Count("options.maxttl_negative.cases", 1)
+	}
+	if interval <= 0 {
+		rec.Count("options.cleanup_interval_nonpositive.cases", 1)
+	}
+	if interval == 1 {
+		rec.Count("options.cleanup_interval_1ns.cases", 1)
+	}
+	if interval == math.MaxInt64 {
+		rec.Count("options.cleanup_interval_maxint64.cases", 1)
+	}
+	if initSize < 0 {
+		rec.Count("options.initial_size_negative.cases", 1)
+	}
+	if initSize >= 1<<15 {
+		rec.Count("options.initial_size_large.cases", 1)
 	}
 }
 
